@@ -212,7 +212,9 @@ func (l *Logger) PrintAuthf(username string, req *http.Request, status AuthStatu
 		Message:       fmt.Sprintf(format, a...),
 	})
 	if err != nil {
-		panic(err)
+		// A format that cannot be executed against the log data (e.g. one that
+		// names an unknown field) must not take the request down with it
+		fmt.Fprintf(l.writer, "error executing auth logging format: %v", err)
 	}
 
 	_, err = l.writer.Write([]byte("\n"))
@@ -271,7 +273,9 @@ func (l *Logger) PrintReq(username, upstream string, req *http.Request, url url.
 		Username:        username,
 	})
 	if err != nil {
-		panic(err)
+		// A format that cannot be executed against the log data (e.g. one that
+		// names an unknown field) must not take the request down with it
+		fmt.Fprintf(l.writer, "error executing request logging format: %v", err)
 	}
 
 	_, err = l.writer.Write([]byte("\n"))
